@@ -27,6 +27,9 @@ func verifObserve(tag string, s string)
 func verifNative() bool
 func verifConcretize(v int) int
 func verifIsSym(v int) bool
+func verifVFSRoot() string
+func verifVFSPut(name string, content []byte)
+func verifVFSDel(name string)
 `
 
 func (e *Engine) byteIn(name, set string) *symv {
@@ -203,6 +206,19 @@ var intrinsics = map[string]extFn{
 			return e.concretize(v.t)
 		}
 		panic(fmt.Sprintf("verifConcretize: %T", a[0]))
+	},
+	"verifVFSRoot": func(e *Engine, _ *frame, _ *ssa.Function, a []value) value { return "/w" },
+	"verifVFSPut": func(e *Engine, _ *frame, _ *ssa.Function, a []value) value {
+		name := e.needStr(a[0], "verifVFSPut")
+		if e.vfs == nil {
+			e.vfs = map[string][]value{}
+		}
+		e.vfs[name] = append([]value(nil), a[1].([]value)...)
+		return nil
+	},
+	"verifVFSDel": func(e *Engine, _ *frame, _ *ssa.Function, a []value) value {
+		delete(e.vfs, e.needStr(a[0], "verifVFSDel"))
+		return nil
 	},
 	"verifIsSym": func(e *Engine, _ *frame, _ *ssa.Function, a []value) value {
 		_, ok := a[0].(*symv)
